@@ -20,8 +20,8 @@ from ..minimise import list_candidates
 ID = "C15"
 LEVEL = "exploration"
 TIERS = {
-    "quick": {"runs": 1400, "wall_cap": 170, "timeout": 150, "dups": 12},
-    "thorough": {"runs": 40000, "wall_cap": 1750, "timeout": 150, "dups": 48},
+    "quick": {"runs": 1400, "wall_cap": 170, "timeout": 400, "dups": 12},
+    "thorough": {"runs": 40000, "wall_cap": 1750, "timeout": 400, "dups": 48},
 }
 RULE = ("Each run is a seeded history (5-40 calls) over 1-4 live SequenceParameters objects (built from strings, from SimFS files, or as "
         "children of get_shuffled_sequence; N 1-60): the whole get_* catalogue with seeded arguments incl. invalid ones (window > N, pH 15, "
